@@ -316,6 +316,11 @@ def check(case, obs):
                 fails.append(("index/vertex-stored", "face %d carries the index %s, the field that was asked for gives %d (angle %.6g)"
                               % (t, obs["singuls"][t], want, ang)))
                 break
+    # ---- flagging twice in a row stores the same indices; a stage called before initialize() is refused
+    if obs.get("flag_twice_same") is False:
+        fails.append(("index/flag-twice", "calling flag_singularities() a second time changed the stored indices"))
+    if obs.get("early_call_accepted"):
+        fails.append(("stages/early-call-accepted", "%s() on a field that was never initialised did not raise" % obs["early_call_accepted"]))
     # ---- a field computation + flagging leaves on the mesh only its documented outputs and the geometry caches the library
     #      is known to leave (feature detection, 'fixed', cotan / corner angles / normals / areas): anything else is a leaked
     #      cache that later computations on the same mesh object will read
@@ -345,7 +350,7 @@ def cleared_matches_fresh(obs, fresh):
     c = np.array([complex(x, y) for x, y in cl["final"]])
     b = np.array([complex(x, y) for x, y in fresh["final"]])
     cs, s2 = np.array(cl["singuls"], dtype=float), np.array(fresh["singuls"], dtype=float)
-    return bool(c.shape == b.shape and np.all(np.isfinite(c)) and np.abs(c - b).max() <= 1e-9 and np.abs(cs - s2).max() <= 1e-9)
+    return bool(c.shape == b.shape and np.all(np.isfinite(c)) and np.abs(c - b).max() <= 1e-6 and np.abs(cs - s2).max() <= 1e-6)
 
 
 def history_check(case, obs, fresh):
@@ -356,7 +361,9 @@ def history_check(case, obs, fresh):
     out = []
     deterministic = len(obs["feat"]) > 0 and case["n_smooth"] == 0     # linear-solve branch without the eigsh-estimated weight
     a, b = arr(obs["final"]), arr(fresh["final"])
-    same = a.shape == b.shape and np.all(np.isfinite(a)) and np.all(np.isfinite(b)) and np.abs(a - b).max() <= 1e-9
+    # 1e-6: the two runs may read cotangents produced by different (equivalent) code paths; with the 1e8 weights of right-angled
+    # cells that shows at the 1e-9 level, a stale geometry shows at the 1e-2 level
+    same = a.shape == b.shape and np.all(np.isfinite(a)) and np.all(np.isfinite(b)) and np.abs(a - b).max() <= 1e-6
     s1, s2 = np.array(obs["singuls"], dtype=float), np.array(fresh["singuls"], dtype=float)
     if same:
         if np.abs(a - b).max() <= 1e-12 and np.abs(s1 - s2).max() > 1e-9:
@@ -371,7 +378,7 @@ def history_check(case, obs, fresh):
     if obs.get("moved") and cl and cl.get("final") is not None:
         c = arr(cl["final"])
         cs = np.array(cl["singuls"], dtype=float)
-        if c.shape == b.shape and np.abs(c - b).max() <= 1e-9 and np.abs(cs - s2).max() <= 1e-9:
+        if c.shape == b.shape and np.abs(c - b).max() <= 1e-6 and np.abs(cs - s2).max() <= 1e-6:
             # recorded mechanism verified: once cotan / corner angles / normals / areas cached on the mesh are deleted, the very
             # same call on the very same object gives the fresh result (field AND indices)
             out.append(("history/stale-geometry-cache",
